@@ -3,7 +3,7 @@
    interpolation contract), circle from model/Pupil.v. *)
 From Coq Require Import Reals List Arith.
 Require Import AOV.base.Num AOV.base.NumR AOV.base.Cplx AOV.model.Pupil AOV.model.Interp
-               AOV.proofs.Mat_proofs AOV.proofs.C16_proofs.
+               AOV.proofs.Mat_proofs AOV.proofs.C16_proofs AOV.proofs.C16_zoom_poly.
 Import ListNotations.
 Local Open Scope R_scope.
 
@@ -32,6 +32,28 @@ Theorem C16_zoom_identity_and_nodes : forall G K (spline : list (list R) -> nat 
 Proof. intros G K spline Hs N m k Hwf HN. split; [apply (zoom_identity G K spline Hs); assumption|].
   intros q a b Hq Ha Hb. apply (zoom_passes_samples G K spline Hs); assumption. Qed.
 Print Assumptions C16_zoom_identity_and_nodes.
+
+(* where zoom evaluates the spline: entry (i, j) of an N -> new zoom is the spline at (i (N-1)/(new-1), j (N-1)/(new-1));
+   so whatever the spline reproduces on the sample grid (FITPACK: polynomials of degree <= order in each variable) is
+   reproduced exactly by zoom on the new grid, and zoom is linear in the data whenever the spline is (complex data =
+   real part + i * imaginary part, each zoomed separately) *)
+Theorem C16_zoom_is_exact_for_what_the_spline_reproduces : forall G K (spline : list (list R) -> nat -> R -> R -> R)
+    (P : R -> R -> R) N (m : list (list R)) k new,
+  wf_mat N N m -> (0 < N)%nat -> (1 < new)%nat ->
+  (forall x y, spline m k x y = P x y) ->
+  forall i j, (i < new)%nat -> (j < new)%nat ->
+  ent (zoom_rbs (ROps G K) spline m new new k) i j = P (INR i * INR (N - 1) / INR (new - 1)) (INR j * INR (N - 1) / INR (new - 1)).
+Proof. exact zoom_reproduces. Qed.
+Print Assumptions C16_zoom_is_exact_for_what_the_spline_reproduces.
+
+Theorem C16_zoom_is_linear_when_the_spline_is : forall G K (spline : list (list R) -> nat -> R -> R -> R)
+    N (m1 m2 m12 : list (list R)) a b k new,
+  wf_mat N N m1 -> wf_mat N N m2 -> wf_mat N N m12 -> (0 < N)%nat -> (1 < new)%nat ->
+  (forall x y, spline m12 k x y = a * spline m1 k x y + b * spline m2 k x y) ->
+  forall i j, (i < new)%nat -> (j < new)%nat ->
+  ent (zoom_rbs (ROps G K) spline m12 new new k) i j
+  = a * ent (zoom_rbs (ROps G K) spline m1 new new k) i j + b * ent (zoom_rbs (ROps G K) spline m2 new new k) i j.
+Proof. exact zoom_linear. Qed.
 
 (* azimuthal average: a constant image gives that constant; every value lies within the data range *)
 Theorem C16_azimuthal_average : forall G K n (data : list (list R)), wf_mat n n data ->
